@@ -121,9 +121,12 @@ class _Run:
     def go(self):
         tape, trace, stats = self.tape, self.trace, self.stats
         ref: RefSchema = self.sim.ref
-        gen = Gen(tape, big=True, nan=False)      # equality of NaN-holding messages is not C10's business
+        gen = Gen(tape, big=True, nan=False, negzero=True)      # equality of NaN-holding messages is not C10's business
         n_frames = 1 + tape.draw(6, "n_frames")
         f = SimFile()
+        # what kind of object the readers hand to load(): duck-typed, raw (unbuffered) or buffered file object
+        f.reader_kind = tape.weighted([3, 1, 1], "reader-kind")
+        stats[f"probe:reader-kind-{('plain', 'raw', 'buffered')[f.reader_kind]}"] += 1
         frames: List[_Frame] = []
         # reader schema per class: same, or older (a tape-chosen subset of top-level fields dropped)
         reader_for = {}
